@@ -84,6 +84,15 @@ def build():
     return W
 
 
+def req(W, name):
+    """'R0' -> [R0]; 'R0+R1' -> [R0, R1] (a multi-adapter)."""
+    return [W[x] for x in name.split('+')]
+
+
+def rname(required):
+    return '+'.join(x.__name__ for x in required)
+
+
 def all_ops(cfg):
     ops = []
     comps = cfg.get('comps', ('u', 'u2', 'v', 'h', 'h2', 'w'))
@@ -100,9 +109,11 @@ def all_ops(cfg):
     ops += [('regU-badname', 'u', 'P0'), ('regA-badname', 'f', 'R0', 'P0')]
     facs = cfg.get('facs', ('f', 'f2', 'g'))
     for f in facs:
-        for r in ('R0', 'R1'):
+        for r in ('R0', 'R1') + (('R0+R1',) if cfg.get('multi') else ()):
             ops.append(('regA', f, r, 'P0', ''))
             ops.append(('unregA', f, r, 'P0', ''))
+            if '+' in r:
+                continue
             for p in cfg.get('sub_provided', ('P0', 'P1')):
                 ops.append(('regS', f, r, p))
                 ops.append(('unregS', f, r, p))
@@ -187,8 +198,8 @@ def step(W, M, op):
         if ret != exp_ret:
             return ('return-value', op, ret, exp_ret)
     elif t == 'regA':
-        f, r, p, n = W[op[1]], W[op[2]], W[op[3]], op[4]
-        c.registerAdapter(f, [r], p, n)
+        f, p, n = W[op[1]], W[op[3]], op[4]
+        c.registerAdapter(f, req(W, op[2]), p, n)
         old = M.adapters.get((op[2], op[3], n))
         M.adapters[(op[2], op[3], n)] = f
         exp_events = [('R', 'adapter', op[2], op[3], n, f.tag)]
@@ -196,7 +207,7 @@ def step(W, M, op):
             alt_events = [('U', 'adapter', op[2], op[3], n, old.tag)] + exp_events
     elif t == 'unregA':
         f = W[op[1]] if op[1] else None
-        ret = c.unregisterAdapter(f, [W[op[2]]], W[op[3]], op[4])
+        ret = c.unregisterAdapter(f, req(W, op[2]), W[op[3]], op[4])
         old = M.adapters.get((op[2], op[3], op[4]))
         if old is None or (f is not None and f != old):
             exp_ret = False
@@ -247,7 +258,7 @@ def step(W, M, op):
         if nm == 'UtilityRegistration':
             got.append((k, 'util', o.provided.__name__, o.name, o.component.tag))
         elif nm == 'AdapterRegistration':
-            got.append((k, 'adapter', o.required[0].__name__, o.provided.__name__, o.name,
+            got.append((k, 'adapter', rname(o.required), o.provided.__name__, o.name,
                         o.factory.tag))
         elif nm == 'SubscriptionRegistration':
             got.append((k, 'sub', o.required[0].__name__, o.provided.__name__,
@@ -275,7 +286,7 @@ def observe_check(W, M):
     lu = sorted((r.provided.__name__, r.name, r.component.ident) for r in c.registeredUtilities())
     if lu != sorted((p, n, comp.ident) for (p, n), comp in M.utils.items()):
         return ('registeredUtilities', lu)
-    la = sorted((r.required[0].__name__, r.provided.__name__, r.name, r.factory.ident)
+    la = sorted((rname(r.required), r.provided.__name__, r.name, r.factory.ident)
                 for r in c.registeredAdapters())
     if la != sorted((r, p, n, f.ident) for (r, p, n), f in M.adapters.items()):
         return ('registeredAdapters', la)
@@ -298,7 +309,7 @@ def observe_check(W, M):
             ut.subscribe((), W[p], comp)
         counted.append((p, comp))
     for (r, p, n), f in M.adapters.items():
-        ad.register([W[r]], W[p], n, f)
+        ad.register(req(W, r), W[p], n, f)
     for r, p, f in M.subs:
         ad.subscribe([W[r]], W[p], f)
     for r, f in M.handlers:
@@ -316,6 +327,12 @@ def observe_check(W, M):
         b = sorted(x.tag for x in ut.subscriptions((), W[p]))
         if a != b:
             return ('getAllUtilitiesRegisteredFor', p, a, b)
+    pair = (W['obR1'], W['obR1'])
+    if c.queryMultiAdapter(pair, W['P0']) != ad.queryMultiAdapter(pair, W['P0']):
+        return ('queryMultiAdapter', 'R1,R1')
+    if sorted(c.getAdapters(pair, W['P0'])) != sorted(
+            (n, f(*pair)) for n, f in ad.lookupAll([W['R1'], W['R1']], W['P0'])):
+        return ('getAdapters', 'R1,R1')
     for r in ('R0', 'R1'):
         ob = W['ob' + r]
         if c.queryAdapter(ob, W['P0']) != ad.queryAdapter(ob, W['P0']):
@@ -428,6 +445,8 @@ def run(ctx):
                  (dict(comps=('u', 'u2', 'h', 'h2'), facs=('f', 'f2'), sub_provided=('P0',)), 3, 'equal-components')]
     plans += [(dict(c, warm=True), d, l + '+queries-after-every-call') for c, d, l in plans]
     # utilities only, deeper: one component under several names, reloads
+    # adapters of two arities (the per-arity tables), adapters only
+    plans.append((dict(comps=(), facs=('f', 'g'), multi=True, sub_provided=()), 3 if quick else 4, 'adapters-two-arities'))
     plans.append((dict(comps=('u', 'u2'), facs=(), provided=('P0',)), 6 if quick else 8, 'utilities-one-interface'))
     plans.append((dict(comps=('u', 'u2', 'h'), facs=()), 4 if quick else 5, 'utilities'))
     for impl in ('c', 'py'):
